@@ -98,9 +98,19 @@ extern "C" ssize_t __wrap_send(int fd, const void *buf, size_t len, int flags)
 
 static sconn *find_sc(qb_ipcs_connection_t *c) { for (auto it = SC.rbegin(); it != SC.rend(); ++it) if (it->p == c && it->alive) return &*it; return NULL; }
 
+extern "C" size_t __sanitizer_get_allocated_size(const volatile void *p);
+static bool on_socket_transport;
 static int32_t s_accept(qb_ipcs_connection_t *c, uid_t, gid_t)
 {
 	int role = next_role;
+	/* the socket transport receives every request into the connection's receive buffer and gives the negotiated maximum as the room there is:
+	   whatever size the peer asked for in its handshake, the two must agree by the time the connection is offered to the application */
+	if (on_socket_transport) {
+		struct qb_ipcs_connection *sc = (struct qb_ipcs_connection *)c;
+		size_t room = sc->receive_buf ? __sanitizer_get_allocated_size(sc->receive_buf) : 0;
+		if ((size_t)sc->request.max_msg_size > room)
+			VFAIL(R, "receive-buffer-below-maximum", "a connection is offered to connection_accept with a negotiated maximum of %u bytes and a receive buffer of %zu bytes", sc->request.max_msg_size, room);
+	}
 	if (role == ROLE_RAW && !raw_accept_ok) { VLOG(R, "  [cb] accept (raw peer) -> refuse\n"); return -EACCES; }
 	SC.push_back(sconn{ c, role, true });
 	VLOG(R, "  [cb] accept -> ok (%s)\n", role == ROLE_CONTROL ? "control" : role == ROLE_VICTIM ? "victim" : "raw peer");
@@ -195,6 +205,7 @@ extern "C" int verif_case(const uint8_t *data, size_t size, struct verif_report 
 	vr_init(&V, data, size);
 	R = r; DISP.clear(); JOBS.clear(); SC.clear(); SENT.clear(); RAW.clear(); nontriv = false; next_id = 1000; control_answers = 0; victim_dropped = false; raw_accept_ok = true;
 	enum qb_ipc_type type = vr_bool(&V) ? QB_IPC_SHM : QB_IPC_SOCKET;
+	on_socket_transport = type == QB_IPC_SOCKET;
 	VCLASS(r, type == QB_IPC_SHM ? K_SHM : K_SOCK);
 	std::string name = ipc_name();
 	struct qb_ipcs_service_handlers sh = { s_accept, s_created, s_msg, s_closed, s_destroyed };
